@@ -829,6 +829,64 @@ Proof.
       apply (Forall_inv_tail Hcs_ne).
 Qed.
 
+(** the state after a verified chunk has been handed to the collector, before its test *)
+Lemma accept_live nows U s p now fs r flight' h :
+  Live (now :: nows) (frame_hdrs fs ++ U) s ->
+  take_flight p (s_flight s) = Some (r, flight') -> do_request now drift tv from r fs = DOk h ->
+  let k := N.of_nat (length h) in
+  let rq := if 0 <? r_amount r - k then [Req (r_origin r + k) (r_amount r - k)] else [] in
+  Live (now :: nows) (frame_hdrs fs ++ U)
+       (Sess (s_amount s) (s_queue s ++ rq) (s_idle s ++ [p]) flight' (s_coll s ++ h) (s_chunks s ++ [h]) None).
+Proof.
+  intros Hmono Htf Hdo. cbv zeta.
+    destruct (take_flight_spec _ _ _ _ Htf) as (Hin & Hc & Hs & Hsub).
+    destruct Hmono as [H1 H2 H3 H4 H5 H6 H7].
+    assert (Hr : 1 <= r_amount r /\ start <= r_origin r /\ r_origin r + r_amount r <= start + amount).
+    { rewrite Forall_forall in H4. apply H4. unfold outstanding. apply in_or_app. right.
+      apply in_map_iff. exists (p, r). split; [reflexivity | exact Hin]. }
+      destruct (do_request_ok drift tv now from r fs h Hnil Hdo) as (Hne & Hlen & Hincl & Hok & Hver & Hcons & Hheights).
+      set (k := N.of_nat (length h)) in *.
+      assert (Hk1 : 1 <= k) by (subst k; destruct h; [contradiction | cbn [length]; lia]).
+      set (rq := if 0 <? r_amount r - k then [Req (r_origin r + k) (r_amount r - k)] else []).
+      set (mid := Sess (s_amount s) (s_queue s ++ rq) (s_idle s ++ [p]) flight' (s_coll s ++ h) (s_chunks s ++ [h]) None).
+      assert (Hmid : Live (now :: nows) (frame_hdrs fs ++ U) mid).
+      { constructor; subst mid; cbn [s_amount s_coll s_chunks s_queue s_flight]; auto.
+        * intros x. specialize (H2 x). unfold outstanding in *. cbn [s_queue s_flight] in *.
+          rewrite map_app, cnt_app, Hheights, cnt_seqN. fold k.
+          rewrite !cnt_reqs_app in *. rewrite Hc in H2.
+          assert (Hsplit : ind (r_origin r) (r_amount r) x =
+                           (ind (r_origin r) k x + cnt_reqs x rq)%nat).
+          { subst rq. destruct (N.ltb_spec 0 (r_amount r - k)) as [Hpos|Hz]; cbn [cnt_reqs r_origin r_amount].
+            - replace (r_amount r) with (k + (r_amount r - k)) at 1 by lia. rewrite ind_split. lia.
+            - replace (r_amount r) with k by lia. lia. }
+          lia.
+        * unfold outstanding in *. cbn [s_queue s_flight] in *.
+          rewrite app_length. rewrite !sum_amounts_app in *. rewrite Hs in H3.
+          assert (sum_amounts rq = r_amount r - k).
+          { subst rq. destruct (N.ltb_spec 0 (r_amount r - k)); cbn; lia. }
+          fold k. lia.
+        * unfold outstanding in *. cbn [s_queue s_flight] in *.
+          rewrite Forall_forall in *. intros q Hq.
+          apply in_app_or in Hq as [Hq|Hq].
+          -- apply in_app_or in Hq as [Hq|Hq]; [apply H4, in_or_app; auto|].
+             subst rq. destruct (N.ltb_spec 0 (r_amount r - k)); [|destruct Hq].
+             destruct Hq as [<-|[]]. cbn. lia.
+          -- apply H4, in_or_app. right. apply in_map_iff in Hq as (z & <- & Hz).
+             apply in_map_iff. exists z. split; [reflexivity | apply Hsub, Hz].
+        * apply Forall_app. split; [exact H5|].
+          apply Forall_forall. intros u Hu.
+          split; [apply in_or_app; left; apply Hincl, Hu|].
+          rewrite Forall_forall in Hok; apply Hok, Hu.
+        * rewrite concat_app. cbn [concat]. rewrite app_nil_r, H6. reflexivity.
+        * apply Forall_app. split; [exact H7|]. constructor; [|constructor].
+          split.
+          -- split; [exact Hne|]. unfold heights. rewrite Hheights.
+             destruct h as [|h0 h']; [contradiction|]. cbn [map seqN] in Hheights. injection Hheights as Hh0 _.
+             cbn [first_height]. rewrite Hh0. reflexivity.
+          -- exists now. split; [left; reflexivity | exact Hver]. }
+      exact Hmid.
+Qed.
+
 Lemma step_inv nows U s ev :
   Inv nows U s -> Inv (ev_nows ev ++ nows) (ev_hdrs ev ++ U) (step drift tv maxcap from s ev).
 Proof.
@@ -1271,14 +1329,14 @@ Fixpoint honest_run (s : sess) (evs : list event) : Prop :=
   | ev :: rest => honest_ev s ev /\ honest_run (step drift tv maxcap from s ev) rest
   end.
 
-Definition on_chain (h : hdr) : Prop := h = c (h_height h).
+Definition on_chain (h : hdr) : Prop := h = c (h_height h) /\ h_height h <= top.
 
 Lemma honest_answer_on_chain a r h :
   a <= top -> In h (frame_hdrs (honest_answer c a r)) -> on_chain h.
 Proof.
   intros Ha. unfold honest_answer. destruct (N.ltb_spec a (r_origin r)) as [Hlt|Hge]; [intros []|].
   rewrite frame_hdrs_map. intros Hin. apply in_map_iff in Hin as (n & <- & Hn).
-  apply In_seqN in Hn. unfold on_chain. rewrite Hch; [reflexivity|]. lia.
+  apply In_seqN in Hn. unfold on_chain. rewrite Hch by lia. split; [reflexivity | lia].
 Qed.
 
 (** every collected (and every returned) header is the chain's header of its height *)
@@ -1330,7 +1388,7 @@ Qed.
 Lemma on_chain_map l : Forall on_chain l -> l = map c (map h_height l).
 Proof.
   induction l as [|h l IH]; intros Hf; [reflexivity|].
-  inversion Hf as [|? ? Hh Hl]; subst. cbn [map]. f_equal; [exact Hh | apply IH, Hl].
+  inversion Hf as [|? ? [Hh _] Hl]; subst. cbn [map]. f_equal; [exact Hh | apply IH, Hl].
 Qed.
 
 End honest.
@@ -1402,7 +1460,7 @@ Proof.
   { split; [rewrite Hc0; constructor|]. intros l Hl. exfalso. exact (Hr0 l Hl). }
   pose proof (run_chain drift tv maxcap from c top Hnil Hch evs _ HCI Hrun) as [_ Hfin].
   unfold GetRangeByHeight in Hout. specialize (Hfin res Hout).
-  rewrite (on_chain_map c res Hfin), Hh. reflexivity.
+  rewrite (on_chain_map c top res Hfin), Hh. reflexivity.
 Qed.
 
 (** ** progress *)
